@@ -6,14 +6,14 @@
 (* real ParseArgs did.  Mismatches are collected per property, never       *)
 (* blocking, so one rejection does not hide the rest of the trace.         *)
 (***************************************************************************)
-EXTENDS Spelling, FTab, Json, IOUtils
+EXTENDS Spelling, ErrText, FTab, Json, IOUtils
 
 VARIABLE l
 
 TraceRecs == ndJsonDeserialize("trace.ndjson")
 Decls == ndJsonDeserialize("decls.ndjson")
 
-Props == {"C01", "C02", "C03", "C04", "C06", "C07", "C08", "C09", "C10", "C11", "C15", "DRIFT"}
+Props == {"C01", "C02", "C03", "C04", "C06", "C07", "C08", "C09", "C10", "C11", "C15", "DRIFT", "MSG"}
 
 \* a scenario may start with a first ParseArgs on the same parser (prelude); the judged call is the second one
 Final(rec, argv) ==
@@ -132,9 +132,13 @@ InDom02(rec, f, o) ==
 JudgeWith(rec, f, o) ==
      [C01 |-> J01(f, o), C02 |-> J02(rec, f, o), C03 |-> J03(f, o), C04 |-> J04(f, o, rec), C06 |-> J06(f, o), C07 |-> J07(f, o),
       C08 |-> J08(f, o), C09 |-> J09(f, o), C10 |-> J10(f, o), C11 |-> J11(f, o), DRIFT |-> FullEq(f, o),
+      \* the wording of the error message is the one ErrText.tla derives from the final state (fidelity only, like DRIFT)
+      MSG |-> (Dom(f, o) /\ ~SpecOk(f) /\ f.err.t = ObsErrT(o) /\ f.sc.completion = E) => MsgAgrees(f, o.errMsg),
       C15 |-> Crashed(o) \/ o.distinct <= 1,           \* repeated runs on fresh parsers gave one observation (values, error message bytes, events)
       \* how often each property's antecedent was met (non-vacuity figures for the evidence)
       grey |-> B(f.grey), ok |-> B(SpecOk(f)), steps |-> f.steps,
+      msg |-> B(Dom(f, o) /\ ~SpecOk(f) /\ f.err.t = ObsErrT(o) /\ f.sc.completion = E
+                /\ (f.err.t \in {"ErrUnknownCommand", "ErrCommandRequired"} \/ MsgOf(f).known)),       \* messages whose wording was compared
       d01 |-> B(Dom(f, o) /\ SpecOk(f) /\ f.occ # <<>>),
       d02 |-> B(InDom02(rec, f, o)),
       d03 |-> B(Dom(f, o) /\ SpecOk(f) /\ f.retargs # <<>>),
@@ -147,7 +151,7 @@ JudgeWith(rec, f, o) ==
       d11 |-> B(Dom(f, o) /\ (f.err.t \in ConvErrs \/ (SpecOk(f) /\ f.occ # <<>>)))]
 Judge(rec) == JudgeWith(rec, TLCEval(Final(rec, rec.argv)), rec.obs)
 
-StatKeys == {"grey", "ok", "steps", "d01", "d02", "d03", "d04", "d06", "d07", "d08", "d09", "d10", "d11"}
+StatKeys == {"grey", "ok", "steps", "msg", "d01", "d02", "d03", "d04", "d06", "d07", "d08", "d09", "d10", "d11"}
 \* One state per record.  The judging is done in an invariant, not in the action: TLC caches lazily evaluated
 \* operator arguments and LET definitions only when it evaluates a state predicate; inside a next-state action every
 \* use re-evaluates them, which turns the nested operators of the specification exponential on large records.
